@@ -770,5 +770,82 @@ theorem fixRm_rel {P : K × V → Bool} {pre post : List (Node K V)} {lower : No
       · simp only [flatIdx, offs_add, offs_cons_succ, List.length_append, hlen]; omega
       · simp only [flatIdx, offs_add, offs_cons_succ, hlen, hlen']; omega
 
+/-- `fixDelNode`: node `pre.length`, holding one record, unlinked -/
+theorem fixDelNode_rel {P : K × V → Bool} {pre post : List (Node K V)} {lower : Node K V} {x : K × V}
+    (e2 : lower.recs = [x]) (hok : NodesOk (pre ++ post)) (hx : P x = false)
+    (hl : ∀ r ∈ flatten (pre ++ post), P r = true) (p : CPos) (hp : CurOk (pre ++ lower :: post) p) :
+    DelRel P (pre ++ lower :: post) (pre ++ post) p
+      (fixDelNode pre.length (pre ++ lower :: post).length
+        (match (pre ++ lower :: post)[pre.length - 1]? with | some q => q.recs.length | none => 0) p) := by
+  have hf : flatten (pre ++ lower :: post) = flatten pre ++ x :: flatten post := by
+    rw [flatten_append, flatten_cons, e2]; rfl
+  have hf' : flatten (pre ++ post) = flatten pre ++ flatten post := flatten_append _ _
+  rw [hf'] at hl
+  have hlen : lower.recs.length = 1 := by rw [e2]; rfl
+  have hn : (pre ++ lower :: post).length = pre.length + post.length + 1 := by
+    simp only [List.length_append, List.length_cons]; omega
+  generalize hprev : (match (pre ++ lower :: post)[pre.length - 1]? with | some q => q.recs.length | none => 0) = prevLen
+  cases p with
+  | head => exact delRel_pseudo hf hf' hx hl (fun _ _ _ h => by cases h)
+  | tail => exact delRel_pseudo hf hf' hx hl (fun _ _ _ h => by cases h)
+  | void => exact delRel_pseudo hf hf' hx hl (fun _ _ _ h => by cases h)
+  | «at» i j s =>
+    rcases regions hp with ⟨hi, hc, hlt⟩ | ⟨rfl, hj⟩ | ⟨m, rfl, hc⟩
+    · have e : fixDelNode pre.length (pre ++ lower :: post).length prevLen (.at i j s) = .at i j s := by
+        simp only [fixDelNode]; rw [if_neg (by omega), if_neg (by omega)]
+      rw [e]
+      refine delRel_lt hf hf' hx hl ((curOk_left _ hi).2 hc) ?_ ?_
+      · simp only [flatIdx, offs_left (Nat.le_of_lt hi)]; omega
+      · simp only [flatIdx, offs_left (Nat.le_of_lt hi)]
+    · have hj0 : j = 0 := by omega
+      subst hj0
+      have hfi : flatIdx (pre ++ lower :: post) pre.length 0 = (flatten pre).length := by
+        simp only [flatIdx, offs_mid]; omega
+      cases post with
+      | nil =>
+        rcases List.eq_nil_or_concat pre with hpre | ⟨pre0, pn, hpre⟩
+        · subst hpre
+          have e : fixDelNode ([] : List (Node K V)).length ([] ++ [lower]).length prevLen (.at ([] : List (Node K V)).length 0 s) = .void := by
+            simp [fixDelNode]
+          rw [e]
+          exact delRel_eq hf hf' hx hl trivial hfi (by simp [aheadN]) (by simp [aheadP])
+        · rw [List.concat_eq_append] at hpre
+          subst hpre
+          have hpl : prevLen = pn.recs.length := by
+            rw [← hprev]
+            have : (pre0 ++ [pn] ++ [lower])[(pre0 ++ [pn]).length - 1]? = some pn := by
+              simp
+            rw [this]
+          have hpn : pn.recs ≠ [] := (hok pn (by simp)).1
+          have hpos : 0 < pn.recs.length := List.length_pos_iff.2 hpn
+          have e : fixDelNode (pre0 ++ [pn]).length (pre0 ++ [pn] ++ [lower]).length prevLen (.at (pre0 ++ [pn]).length 0 s) =
+              .at pre0.length (pn.recs.length - 1) (-1) := by
+            simp [fixDelNode, hpl]
+          rw [e]
+          have hfl : flatIdx (pre0 ++ [pn] ++ []) pre0.length (pn.recs.length - 1) + 1 = (flatten (pre0 ++ [pn])).length := by
+            simp only [List.append_nil, flatIdx, offs_mid, flatten_append, flatten_cons, flatten_nil, List.append_nil,
+              List.length_append]; omega
+          refine delRel_eq hf hf' hx hl ?_ hfi ?_ ?_
+          · rw [List.append_nil]; exact (curOk_mid _ _ _ _ _).2 (by omega)
+          · simp only [aheadN, show ¬ ((-1 : Int) > 0) by omega, if_false, hfl]
+          · simp only [aheadP, show ((-1 : Int) < 0) by omega, if_true, hfl]
+      | cons nd post' =>
+        have e : fixDelNode pre.length (pre ++ lower :: nd :: post').length prevLen (.at pre.length 0 s) = .at pre.length 0 1 := by
+          simp only [fixDelNode, if_true]; rw [if_neg (by simp)]
+        rw [e]
+        have hnd : nd.recs ≠ [] := (hok nd (by simp)).1
+        have hfl : flatIdx (pre ++ nd :: post') pre.length 0 = (flatten pre).length := by
+          simp only [flatIdx, offs_mid]; omega
+        refine delRel_eq hf hf' hx hl ((curOk_mid _ _ _ _ _).2 (List.length_pos_iff.2 hnd)) hfi ?_ ?_
+        · simp only [aheadN, show ((1 : Int) > 0) by omega, if_true, hfl]
+        · simp only [aheadP, show ¬ ((1 : Int) < 0) by omega, if_false, hfl]
+    · have e : fixDelNode pre.length (pre ++ lower :: post).length prevLen (.at (pre.length + (m + 1)) j s) =
+          .at (pre.length + m) j s := by
+        simp only [fixDelNode]; rw [if_neg (by omega), if_pos (by omega)]; rfl
+      rw [e]
+      refine delRel_gt hf hf' hx hl ((curOk_add _ _ _ _ _).2 hc) ?_ ?_
+      · simp only [flatIdx, offs_add, offs_cons_succ, hlen]; omega
+      · simp only [flatIdx, offs_add, offs_cons_succ, hlen]; omega
+
 end
 end IwModel.Kv
